@@ -74,10 +74,28 @@ struct HObj {
 
 const RC_TAG: i64 = 10_000;
 const CAP_TAG: i64 = 20_000;
+const CAP2_TAG: i64 = 25_000;
 const SC_TAG: i64 = 30_000;
+
+/// Every closure this returns has the same Rust type (and the same monomorphised
+/// call shim); they differ only in the state they capture.
+fn capture_fn(name: &'static str, cap: Arc<Trk>) -> roto::Function {
+    roto::Function::new(
+        name,
+        "a registered closure that captures a tracked value",
+        vec![],
+        move || -> i64 {
+            cap.check("captured");
+            cap.tag
+        },
+        roto::location!(),
+    )
+    .expect("closure item")
+}
 
 fn make_runtime(id: usize) -> Runtime<NoCtx> {
     let cap = Arc::new(Trk::new(CAP_TAG + id as i64));
+    let cap2 = Arc::new(Trk::new(CAP2_TAG + id as i64));
     let rc = Trk::new(RC_TAG + id as i64);
     let lib = library! {
         /// drop-tracked type
@@ -93,24 +111,23 @@ fn make_runtime(id: usize) -> Runtime<NoCtx> {
         }
         /// a registered constant that owns a tracked value
         const RC: Val<Trk> = Val(rc);
-        /// a registered closure that captures a tracked value
-        let cap_tag = move || -> i64 {
-            cap.check("captured");
-            cap.tag
-        };
     };
-    Runtime::from_lib(lib).expect("lifetimes runtime")
+    let mut rt = Runtime::from_lib(lib).expect("lifetimes runtime");
+    // two closures of the same Rust type, each with its own captured state
+    rt.add(capture_fn("cap_tag", cap)).expect("cap_tag");
+    rt.add(capture_fn("cap2_tag", cap2)).expect("cap2_tag");
+    rt
 }
 
 fn script(pkg_id: usize) -> String {
     let t = SC_TAG + pkg_id as i64;
     format!(
-        "const SC: Trk = mk({t});\nconst N: i64 = {pkg_id};\nfn f() -> i64 {{\n    SC.tag() * 1000000 + RC.tag() * 10 + cap_tag() % 10 + N * 0\n}}\n"
+        "const SC: Trk = mk({t});\nconst N: i64 = {pkg_id};\nfn f() -> i64 {{\n    SC.tag() * 1000000 + RC.tag() * 10 + cap_tag() % 10 + (cap2_tag() % 10) * 1000000000000 + N * 0\n}}\n"
     )
 }
 
 fn expected_result(pkg_id: usize, rt_id: usize) -> i64 {
-    (SC_TAG + pkg_id as i64) * 1_000_000 + (RC_TAG + rt_id as i64) * 10 + (CAP_TAG + rt_id as i64) % 10
+    (SC_TAG + pkg_id as i64) * 1_000_000 + (RC_TAG + rt_id as i64) * 10 + (CAP_TAG + rt_id as i64) % 10 + ((CAP2_TAG + rt_id as i64) % 10) * 1_000_000_000_000
 }
 
 struct World {
@@ -154,6 +171,7 @@ impl World {
         for r in rt_alive {
             *m.entry(RC_TAG + r as i64).or_insert(0) += 1;
             *m.entry(CAP_TAG + r as i64).or_insert(0) += 1;
+            *m.entry(CAP2_TAG + r as i64).or_insert(0) += 1;
         }
         let mut pk: Vec<usize> = self.pkgs.iter().map(|p| p.id).collect();
         pk.extend(self.hs.iter().map(|h| h.pkg_id));
